@@ -12,9 +12,8 @@ Open Scope R_scope.
 Ltac open_tr := intros; destruct_tuples; autounfold with smgen in *; unfold SE3, SE2, t2r3, t2r2, lastrow4, lastrow3; sm_simpl.
 Ltac so_tr := open_tr; so_poly.
 Ltac se_tr := open_tr; split; [ so_poly | reflexivity ].
-(* membership inherited from a value already shown to be in the group: the two traces are the same polynomials (ring) *)
-Ltac by_eq B H := match goal with |- SO3 ?A => replace A with B; [ exact H | open_tr; tuple_eq ltac:(ring) ] end.
-Ltac se_by_eq B H := unfold SE3; split; [ by_eq B H | open_tr; reflexivity ].
+(* every option is proved DIRECTLY on its own trace (not through equality with another trace): a change that makes an
+   option return a different but still valid member (e.g. unit='deg' ignored) is C15's business and leaves these proofs intact *)
 Ltac conjs := intros; repeat match goal with |- _ /\ _ => split end.
 
 (* The per-function results below are Lemmas; the property theorems (each followed by Print Assumptions, which
@@ -59,40 +58,25 @@ Lemma C01_rpy2r_aliases_SO3 : forall a,
   SO3 (tr_rpy2r_vehicle_rad Rops a) /\ SO3 (tr_rpy2r_vehicle_deg Rops a) /\
   SO3 (tr_rpy2r_arm_rad Rops a) /\ SO3 (tr_rpy2r_arm_deg Rops a) /\
   SO3 (tr_rpy2r_camera_rad Rops a) /\ SO3 (tr_rpy2r_camera_deg Rops a).
-Proof.
-  intros a. destruct (C01_rpy2r_zyx_SO3 a) as [Z1 Z2], (C01_rpy2r_xyz_SO3 a) as [X1 X2], (C01_rpy2r_yxz_SO3 a) as [Y1 Y2].
-  conjs; [ by_eq (tr_rpy2r_zyx_rad Rops a) Z1 | by_eq (tr_rpy2r_zyx_deg Rops a) Z2 | by_eq (tr_rpy2r_xyz_rad Rops a) X1
-         | by_eq (tr_rpy2r_xyz_deg Rops a) X2 | by_eq (tr_rpy2r_yxz_rad Rops a) Y1 | by_eq (tr_rpy2r_yxz_deg Rops a) Y2 ].
-Qed.
+Proof. conjs; so_tr. Qed.
 Lemma C01_rpy2r_scalars_SO3 : forall r p y, SO3 (tr_rpy2r_scalars Rops r p y).
 Proof. so_tr. Qed.
 Lemma C01_rpy2tr_SE3 : forall a,
   SE3 (tr_rpy2tr_zyx_rad Rops a) /\ SE3 (tr_rpy2tr_zyx_deg Rops a) /\
   SE3 (tr_rpy2tr_xyz_rad Rops a) /\ SE3 (tr_rpy2tr_xyz_deg Rops a) /\
   SE3 (tr_rpy2tr_yxz_rad Rops a) /\ SE3 (tr_rpy2tr_yxz_deg Rops a).
-Proof.
-  intros a. destruct (C01_rpy2r_zyx_SO3 a) as [Z1 Z2], (C01_rpy2r_xyz_SO3 a) as [X1 X2], (C01_rpy2r_yxz_SO3 a) as [Y1 Y2].
-  conjs; [ se_by_eq (tr_rpy2r_zyx_rad Rops a) Z1 | se_by_eq (tr_rpy2r_zyx_deg Rops a) Z2 | se_by_eq (tr_rpy2r_xyz_rad Rops a) X1
-         | se_by_eq (tr_rpy2r_xyz_deg Rops a) X2 | se_by_eq (tr_rpy2r_yxz_rad Rops a) Y1 | se_by_eq (tr_rpy2r_yxz_deg Rops a) Y2 ].
-Qed.
+Proof. conjs; se_tr. Qed.
 Lemma C01_rpy2tr_aliases_SE3 : forall a,
   SE3 (tr_rpy2tr_vehicle_rad Rops a) /\ SE3 (tr_rpy2tr_vehicle_deg Rops a) /\
   SE3 (tr_rpy2tr_arm_rad Rops a) /\ SE3 (tr_rpy2tr_arm_deg Rops a) /\
   SE3 (tr_rpy2tr_camera_rad Rops a) /\ SE3 (tr_rpy2tr_camera_deg Rops a).
-Proof.
-  intros a. destruct (C01_rpy2r_zyx_SO3 a) as [Z1 Z2], (C01_rpy2r_xyz_SO3 a) as [X1 X2], (C01_rpy2r_yxz_SO3 a) as [Y1 Y2].
-  conjs; [ se_by_eq (tr_rpy2r_zyx_rad Rops a) Z1 | se_by_eq (tr_rpy2r_zyx_deg Rops a) Z2 | se_by_eq (tr_rpy2r_xyz_rad Rops a) X1
-         | se_by_eq (tr_rpy2r_xyz_deg Rops a) X2 | se_by_eq (tr_rpy2r_yxz_rad Rops a) Y1 | se_by_eq (tr_rpy2r_yxz_deg Rops a) Y2 ].
-Qed.
+Proof. conjs; se_tr. Qed.
 
 (* ---------- Euler ZYZ ---------- *)
 Lemma C01_eul2r_SO3 : forall a, SO3 (tr_eul2r_rad Rops a) /\ SO3 (tr_eul2r_deg Rops a).
 Proof. conjs; so_tr. Qed.
 Lemma C01_eul2tr_SE3 : forall a, SE3 (tr_eul2tr_rad Rops a) /\ SE3 (tr_eul2tr_deg Rops a).
-Proof.
-  intros a. destruct (C01_eul2r_SO3 a) as [E1 E2].
-  conjs; [ se_by_eq (tr_eul2r_rad Rops a) E1 | se_by_eq (tr_eul2r_deg Rops a) E2 ].
-Qed.
+Proof. conjs; se_tr. Qed.
 
 (* ---------- unit quaternion -> rotation matrix; embeddings ---------- *)
 Lemma C01_q2r_SO3 : forall q, UnitQ q -> SO3 (tr_q2r Rops q).
@@ -121,25 +105,14 @@ Proof. conjs; se_tr. Qed.
 Lemma C01_SO3_RPY : forall a,
   SO3 (tr_SO3_RPY_zyx_rad Rops a) /\ SO3 (tr_SO3_RPY_zyx_deg Rops a) /\ SO3 (tr_SO3_RPY_xyz_rad Rops a) /\
   SO3 (tr_SO3_RPY_xyz_deg Rops a) /\ SO3 (tr_SO3_RPY_yxz_rad Rops a) /\ SO3 (tr_SO3_RPY_yxz_deg Rops a).
-Proof.
-  intros a. destruct (C01_rpy2r_zyx_SO3 a) as [Z1 Z2], (C01_rpy2r_xyz_SO3 a) as [X1 X2], (C01_rpy2r_yxz_SO3 a) as [Y1 Y2].
-  conjs; [ by_eq (tr_rpy2r_zyx_rad Rops a) Z1 | by_eq (tr_rpy2r_zyx_deg Rops a) Z2 | by_eq (tr_rpy2r_xyz_rad Rops a) X1
-         | by_eq (tr_rpy2r_xyz_deg Rops a) X2 | by_eq (tr_rpy2r_yxz_rad Rops a) Y1 | by_eq (tr_rpy2r_yxz_deg Rops a) Y2 ].
-Qed.
+Proof. conjs; so_tr. Qed.
 Lemma C01_SE3_RPY : forall a,
   SE3 (tr_SE3_RPY_zyx_rad Rops a) /\ SE3 (tr_SE3_RPY_zyx_deg Rops a) /\ SE3 (tr_SE3_RPY_xyz_rad Rops a) /\
   SE3 (tr_SE3_RPY_xyz_deg Rops a) /\ SE3 (tr_SE3_RPY_yxz_rad Rops a) /\ SE3 (tr_SE3_RPY_yxz_deg Rops a).
-Proof.
-  intros a. destruct (C01_rpy2r_zyx_SO3 a) as [Z1 Z2], (C01_rpy2r_xyz_SO3 a) as [X1 X2], (C01_rpy2r_yxz_SO3 a) as [Y1 Y2].
-  conjs; [ se_by_eq (tr_rpy2r_zyx_rad Rops a) Z1 | se_by_eq (tr_rpy2r_zyx_deg Rops a) Z2 | se_by_eq (tr_rpy2r_xyz_rad Rops a) X1
-         | se_by_eq (tr_rpy2r_xyz_deg Rops a) X2 | se_by_eq (tr_rpy2r_yxz_rad Rops a) Y1 | se_by_eq (tr_rpy2r_yxz_deg Rops a) Y2 ].
-Qed.
+Proof. conjs; se_tr. Qed.
 Lemma C01_SO3_SE3_Eul : forall a,
   SO3 (tr_SO3_Eul_rad Rops a) /\ SO3 (tr_SO3_Eul_deg Rops a) /\ SE3 (tr_SE3_Eul_rad Rops a) /\ SE3 (tr_SE3_Eul_deg Rops a).
-Proof.
-  intros a. destruct (C01_eul2r_SO3 a) as [E1 E2].
-  conjs; [ by_eq (tr_eul2r_rad Rops a) E1 | by_eq (tr_eul2r_deg Rops a) E2 | se_by_eq (tr_eul2r_rad Rops a) E1 | se_by_eq (tr_eul2r_deg Rops a) E2 ].
-Qed.
+Proof. conjs; first [ so_tr | se_tr ]. Qed.
 Lemma C01_SE3_T : forall d x y z t,
   SE3 (tr_SE3_Tx Rops d) /\ SE3 (tr_SE3_Ty Rops d) /\ SE3 (tr_SE3_Tz Rops d) /\ SE3 (tr_SE3_xyz Rops x y z) /\ SE3 (tr_SE3_vec Rops t).
 Proof. conjs; se_tr. Qed.
